@@ -42,7 +42,9 @@ fn panic_class() -> &'static str {
     if std::env::var("PVH_PANIC_MSG").is_ok() {
         eprintln!("panic message: {m}");
     }
-    if m.contains("divide by zero") || m.contains("overflow") {
+    if m.contains("overflow: max(") {
+        "assert"
+    } else if m.contains("divide by zero") || m.contains("overflow") {
         "overflow"
     } else if m.contains("out of bounds") || m.contains("out of range") || m.contains("range end index") || m.contains("range start index") {
         "bounds"
